@@ -880,6 +880,18 @@ void applyEquivalenceMapToModel(const EquivalenceMap &map, const ModelPtr &model
     }
 }
 
+ImportSourcePtr clonedImportSource(const ImportSourcePtr &importSource, ImportSourceMap &importSourceMap)
+{
+    auto result = importSourceMap.find(importSource);
+    if (result != importSourceMap.end()) {
+        return result->second;
+    }
+    auto clone = importSource->clone();
+    importSourceMap.emplace(importSource, clone);
+
+    return clone;
+}
+
 void listComponentIds(const ComponentPtr &component, IdList &idList)
 {
     std::string id = component->id();
